@@ -66,10 +66,14 @@ def fixed_pool(i, n):
         return M("plain", dict(_rec("t/p", [("string", "s"), ("varint", "n")], ["\ud800", 10**5000]), poison=True))
     if i == 8:
         return M("plain", _rec("t/p", [("string", "s"), ("varint", "n")], ["ok%d" % n, n]))
+    if i == 9:
+        # a second grouped record with the SAME group name and the same flattened field list as entry 5, built from a
+        # different member type: the flat shape of a group does not say which member descriptors the stream needs
+        return M("grp", {"name": "t/grp", "recs": [M("plain", _rec("t/gm", [("string", "x"), ("varint", "y")], ["m%d" % n, n]))]})
     raise IndexError(i)
 
 
-POOL_N = 9
+POOL_N = 10
 
 
 def exhaustive_cases(tier):
@@ -77,8 +81,8 @@ def exhaustive_cases(tier):
     for kind in ("binary", "json"):
         for ln in range(1, 5):
             for h in itertools.product(range(POOL_N), repeat=ln):
-                if ln == 4 and not ({7, 8} & set(h)) and (h[0] + h[1] * 7 + h[2] * 49 + h[3] * 343) % 1 != 0:
-                    continue
+                if ln == 4 and 9 in h and 5 not in h:
+                    continue  # (the shape twin matters next to the grouped record it resembles)
                 cases.append({"kind": kind, "writers": 1, "hist": [(0, i) for i in h], "fixed": True})
         for ln in range(1, 4):
             for h in itertools.product(range(7), repeat=ln):
@@ -517,10 +521,24 @@ def random_case(draw):
     nw = draw(st.integers(1, 3))
     n = draw(st.integers(2, 40 if kind == "binary" else 25))
     hist = []
+    # "shape twins": groupings of different member types under one group name that flatten to the same field list
+    # (whole / split in two / whole plus a fully shadowed part)
+    tw_types = [t for t in ("string", "varint", "boolean", "uint16") if t in types]
+    tw_fields = tuple((draw(st.sampled_from(tw_types)), "tw%d" % i) for i in range(draw(st.integers(2, 3))))
+    tw_cut = draw(st.integers(1, len(tw_fields) - 1))
+    tw_base = draw(gen.type_name())
+    tw_whole = (tw_base, tw_fields)
+    tw_left = (tw_base if draw(st.booleans()) else tw_base + "/l", tw_fields[:tw_cut])
+    tw_right = (tw_base + "/r", tw_fields[tw_cut:])
+    tw_group = draw(gen.type_name())
+    tw_variants = [[tw_whole], [tw_left, tw_right], [tw_whole, tw_right], [tw_left, tw_right, tw_whole]]
     for _ in range(n):
         w = draw(st.integers(0, nw - 1))
         k = draw(st.integers(0, 14))
-        if k == 0:
+        if k == 1 or (k == 2 and hist and hist[-1][1].kind == "grp"):
+            ms = [M("plain", draw(gen.record_spec(1, desc=d, types=types))) for d in draw(st.sampled_from(tw_variants))]
+            hist.append((w, M("grp", {"name": tw_group, "recs": ms})))
+        elif k == 0:
             ms = []
             allow_collision = draw(st.integers(0, 9)) == 0
             for _ in range(draw(st.integers(2, 3))):
